@@ -10,6 +10,7 @@ import (
 
 	"github.com/yuin/goldmark/ast"
 	"github.com/yuin/goldmark/renderer/html"
+	"github.com/yuin/goldmark/text"
 )
 
 func init() { runners["C10"] = runC10; runners["C11"] = runC11 }
@@ -147,6 +148,7 @@ func runC10(c *Ctx) {
 			outs[rend{s.cf.Unsafe, s.cf.XHTML, s.cf.HardWraps}] = o
 		}
 		nontrivial := false
+		soft := countSoftBreaks(m, d)
 		for _, u := range []bool{false, true} {
 			for _, h := range []bool{false, true} {
 				if !bytes.Equal(outs[rend{u, false, h}], outs[rend{u, true, h}]) {
@@ -171,6 +173,15 @@ func runC10(c *Ctx) {
 				if r := hardWrapRel(outs[rend{u, x, false}], outs[rend{u, x, true}], x); r != "" {
 					return r, true
 				}
+				// each soft line break of the tree must have received its <br>
+				br := []byte("<br>\n")
+				if x {
+					br = []byte("<br />\n")
+				}
+				if soft >= 0 && bytes.Count(outs[rend{u, x, true}], br) != bytes.Count(outs[rend{u, x, false}], br)+soft {
+					return fmt.Sprintf("HardWraps: the tree has %d soft line breaks but the number of <br> grows from %d to %d: %.200q", soft,
+						bytes.Count(outs[rend{u, x, false}], br), bytes.Count(outs[rend{u, x, true}], br), outs[rend{u, x, true}]), true
+				}
 			}
 		}
 		for _, x := range []bool{false, true} {
@@ -192,4 +203,28 @@ func runC10(c *Ctx) {
 		c.Case("RenderTree", tc[0].([]string), tc[1].(string))
 	}
 	c.Rep.Extra["tree_cases"] = len(treeCases)
+}
+
+// soft line breaks that the renderer turns into a newline (outside image alt text)
+func countSoftBreaks(m mdT, d []byte) (n int) {
+	defer func() {
+		if r := recover(); r != nil {
+			n = -1
+		}
+	}()
+	doc := m.md.Parser().Parse(text.NewReader(d))
+	var walk func(nd ast.Node)
+	walk = func(nd ast.Node) {
+		if _, ok := nd.(*ast.Image); ok {
+			return
+		}
+		if t, ok := nd.(*ast.Text); ok && t.SoftLineBreak() && !t.HardLineBreak() && !t.IsRaw() {
+			n++
+		}
+		for c := nd.FirstChild(); c != nil; c = c.NextSibling() {
+			walk(c)
+		}
+	}
+	walk(doc)
+	return n
 }
